@@ -179,7 +179,7 @@ class _QueryResponse:
         """
         if TYPE_CHECKING:
             record = cast(_UniqueRecordsType, record)
-        maybe_entry = self._cache.async_get_unique(record)
+        maybe_entry = self._cached_copy(record)
         # The quarter is taken from the TTL the record is sent with. The copy in
         # the cache (our own multicast looped back) can carry a different TTL:
         # pointer records are raised to a minimum TTL when they are cached.
@@ -194,8 +194,21 @@ class _QueryResponse:
         """
         if TYPE_CHECKING:
             record = cast(_UniqueRecordsType, record)
-        maybe_entry = self._cache.async_get_unique(record)
+        maybe_entry = self._cached_copy(record)
         return bool(maybe_entry is not None and self._now - maybe_entry.created < _ONE_SECOND)
+
+    def _cached_copy(self, record):  # type: ignore[no-untyped-def]
+        """Find the copy of one of our records that was last seen on the network."""
+        maybe_entry = self._cache.async_get_unique(record)
+        if maybe_entry is None and record.type == _TYPE_AAAA:
+            # An AAAA record received on an IPv6 socket carries the scope id of the
+            # receiving interface, which is part of its identity, while our own record
+            # has none: our own multicast comes back as a different record and would
+            # never count as seen. Look for the same address in any scope.
+            for entry in self._cache.async_all_by_details(record.name, _TYPE_AAAA, _CLASS_IN):
+                if entry.address == record.address and (maybe_entry is None or entry.created > maybe_entry.created):
+                    maybe_entry = entry
+        return maybe_entry
 
 
 class QueryHandler:
